@@ -1,7 +1,7 @@
 """Per-property configuration of ./check."""
 
 PROPS = {}
-HOOK_COMMITS = ["4bf9c3e"]
+HOOK_COMMITS = ["4bf9c3e", "fb2c1fb"]
 NOT_APPLICABLE = {}
 
 PROPS["C19"] = {
